@@ -76,6 +76,10 @@ CLAIMED = {
     text="specs/LapackGen.tla enumerates the case lattice (routine x orientation x padding x triangle x shape x sizes x element type); the replayer builds exactly representable data (L*L^H with integer/Gaussian-integer L and power-of-two diagonal, optional planted non-positive pivot, garbage in the triangle/padding that must not be read; small integer matrices for geqrf/gesvd), calls potrf/geqrf/gesvd through the adaptor and logs whole guarded buffers before and after in fixed point; the TLA+ monitor specs/Lapack.tla prescribes the cell of every view element from the descriptor and checks per record: potrf returns the leading k x k block with k computed by exact integer Cholesky, the factor reproduces the selected triangle exactly, the other triangle, padding and guards are unchanged; geqrf: R upper trapezoidal, reflectors orthogonal, H1..Hk R = A0 within 1/16; gesvd: A0 = U diag(s) W with W = V^T, s non-negative non-increasing, U and W orthogonal within 2^-6; only documented outputs change.",
     note="sizes 1..4 (6 thorough), element types d,z (s,d,c,z thorough); rounding-level accuracy is delegated to LAPACK (tolerances far above rounding, far below the O(1) error of a wrong triangle/stride); syev.hpp does not compile at the pinned commit (open finding) and getrf is excluded by the property; LAPACK call arguments are not intercepted (frame decided from buffers).",
     ref="DESIGN.md section 5 C14", tech="TLC-enumerated case lattice executed in the implementation; recorded inputs/outputs validated by the TLA+ monitor Lapack.tla (exact integer / fixed-point arithmetic)"),
+ "C11": dict(
+    text="Re-binding: the TLC-generated programs of C01 (ViewAlgebra.tla views), C02 (Iterators.tla) and C04/C06 (ArrayOps.tla histories over owning arrays, int and std::string elements) are replayed with the same replayers instantiated over two more pointer families supplied by the harness: a minimal fancy pointer (class type, own arithmetic/comparison/dereference, no implicit conversion to or from T*, plain T& references; used as array_ref/view pointer and as allocator::pointer) and a bounds-checking pointer that records every dereference outside its block or of null and every arithmetic/comparison across blocks. Every observation must equal what the specifications prescribe (exactly as judged for raw pointers) and the checking pointer must have recorded nothing; a program family that does not compile over a pointer family is itself a violation.",
+    note="bounded as the quick tiers of C01/C02/C04/C06 (roots D<=3, extents 0..2/3, programs <= 2-3 operations); library code no such program instantiates is not observed; assignment/comparison/algorithm programs (C03, C05, C07) are not re-bound; two open findings (dereference of *first of an empty iterator range) are listed in known_findings.txt.",
+    ref="DESIGN.md section 5 C11"),
 }
 
 props = [json.loads(l) for l in open(os.path.join(V, "properties.jsonl"))]
